@@ -227,6 +227,10 @@ func GenFlow(rng *rand.Rand, o GenOpts) *FlowP {
 			}
 		}
 	}
+	if len(f.Results) > 0 && !o.Modifier && rng.Intn(6) == 0 {
+		// the same value asked for twice (a response variable and a cache slot, say)
+		f.Results = append(f.Results, f.Results[rng.Intn(len(f.Results))])
+	}
 	rng.Shuffle(len(f.Results), func(i, j int) { f.Results[i], f.Results[j] = f.Results[j], f.Results[i] })
 	switch rng.Intn(4) {
 	case 0:
